@@ -1,7 +1,7 @@
 (* C12/Properties.v — property C12: SCALE decoding rejects malformed input safely.
    Only statements, each closed by `exact <lemma>`, with Print Assumptions beneath. *)
 From Common Require Import Bytes Outcome.
-From Scale Require Import Compact CompactProofs Types Spec Codec EncodeProofs MonadLemmas RoundTrip Prefix.
+From Scale Require Import Compact CompactProofs Types Spec Codec EncodeProofs MonadLemmas RoundTrip Prefix Total Cost.
 From C12 Require Import Model Proofs.
 Local Open Scope N_scope.
 
@@ -40,6 +40,38 @@ Theorem C12_noncanonical_ideal : forall t bs,
 Proof. exact noncanonical_ideal. Qed.
 Print Assumptions C12_noncanonical_ideal.
 
+(* decoding never panics and always terminates (no fuel exhaustion), for every well-formed type
+   and every input, on the current tree *)
+Theorem C12_total : forall t bs,
+  wf_ty t = true -> decode_res current t bs <> Panic /\ decode_res current t bs <> OutOfFuel.
+Proof. exact total_current. Qed.
+Print Assumptions C12_total.
+
+(* allocation: the decoder with the repaired decodeBytes never requests more than a constant
+   (computed from the type: Scale.Cost.ca, cb) times 1 + the input length *)
+Theorem C12_alloc_ideal : forall t bs,
+  wf_ty t = true -> decode_cost ideal t bs <= (ca t + cb t) * (1 + len bs).
+Proof. exact alloc_ideal. Qed.
+Print Assumptions C12_alloc_ideal.
+
+(* on the current tree the same bound holds for every type without []byte / string components *)
+Theorem C12_alloc_partial : forall t bs,
+  wf_ty t = true -> bytes_free t = true -> decode_cost current t bs <= (ca t + cb t) * (1 + len bs).
+Proof. exact alloc_current_partial. Qed.
+Print Assumptions C12_alloc_partial.
+
+(* finding bytes-overrun: with []byte the current tree has no such bound *)
+Theorem C12_alloc_refuted :
+  exists t bs, wf_ty t = true /\ len bs = 5 /\ 65536 <= decode_cost current t bs /\
+               decode_cost ideal t bs <= 5000.
+Proof. exact alloc_current_refuted. Qed.
+Print Assumptions C12_alloc_refuted.
+
+(* the pinned tree (before fixes/C12-map-nil.patch) panics *)
+Theorem C12_total_pinned_refuted : exists t bs, wf_ty t = true /\ decode_res pinned t bs = Panic.
+Proof. exact pinned_panics. Qed.
+Print Assumptions C12_total_pinned_refuted.
+
 (* the pinned tree violates the property in three ways repaired by fixes/C12-*.patch:
    a u32 decodes from two bytes (zero-filled), a non-canonical big integer is accepted,
    decoding into a nil map panics *)
@@ -68,3 +100,15 @@ Theorem C12_map_noncanonical_refuted :
   decode_res ideal (TMap TU8 TU8) [b 8; b 1; b 1; b 1; b 2] = Err 1%nat.
 Proof. exact map_dup_witness. Qed.
 Print Assumptions C12_map_noncanonical_refuted.
+
+(* non-vacuity: a 13-byte input decodes to a nested value whose canonical encoding is the input;
+   the same input cut by one byte is rejected *)
+Example C12_nonvacuous :
+  let t := TStruct (TCons None (TSlice TU16) (TCons None (TOption TBig) (TCons None TBytes TNil))) in
+  let bs := [b 8; b 1; b 0; b 2; b 0; b 1; b 3; b 0; b 0; b 0; b 64; b 4; b 65] in
+  wf_ty t = true /\
+  decode_res current t bs = Ok (VList (VCons (VList (VCons (VN 1) (VCons (VN 2) VNil)))
+                                (VCons (VSome (VN 1073741824)) (VCons (VBytes [b 65]) VNil))), []) /\
+  decode_res ideal t bs = decode_res current t bs /\
+  decode_res current t (firstn 12 bs) = Err 1%nat.
+Proof. vm_compute. repeat split; reflexivity. Qed.
